@@ -138,7 +138,13 @@ func (s *icmpDriver) ReceiveProbe(timeout time.Duration) (*common.ProbeResponse,
 	return s.handleProbeLayers(s.parser)
 }
 
-func (s *icmpDriver) getRTTFromRelSeq(relSeq uint8) (time.Duration, error) {
+func (s *icmpDriver) getRTTFromRelSeq(seq uint16) (time.Duration, error) {
+	// the sequence number is 16 bits wide on the wire but only carries a TTL; do not let a value
+	// that merely agrees modulo 256 alias a probe we sent
+	if seq > 255 {
+		return 0, fmt.Errorf("getRTTFromRelSeq: sequence number %d is not a TTL", seq)
+	}
+	relSeq := uint8(seq)
 	if relSeq < s.params.ParallelParams.MinTTL || relSeq > s.params.ParallelParams.MaxTTL {
 		return 0, fmt.Errorf("getRTTFromRelSeq: invalid relative sequence number %d", relSeq)
 	}
@@ -187,7 +193,7 @@ func (s *icmpDriver) handleProbeLayers(parser *packets.FrameParser) (*common.Pro
 			if uint16(echo.ID) != s.echoID {
 				return nil, &common.BadPacketError{Err: fmt.Errorf("mismatched echo ID")}
 			}
-			rtt, err := s.getRTTFromRelSeq(uint8(echo.Seq))
+			rtt, err := s.getRTTFromRelSeq(uint16(echo.Seq))
 			if err != nil {
 				return nil, &common.BadPacketError{Err: fmt.Errorf("icmpDriver failed to get RTT: %w", err)}
 			}
@@ -201,7 +207,7 @@ func (s *icmpDriver) handleProbeLayers(parser *packets.FrameParser) (*common.Pro
 			if parser.ICMP4.Id != s.echoID {
 				return nil, &common.BadPacketError{Err: fmt.Errorf("mismatched echo ID")}
 			}
-			rtt, err := s.getRTTFromRelSeq(uint8(parser.ICMP4.Seq))
+			rtt, err := s.getRTTFromRelSeq(parser.ICMP4.Seq)
 			if err != nil {
 				return nil, &common.BadPacketError{Err: fmt.Errorf("icmpDriver failed to get RTT: %w", err)}
 			}
@@ -242,7 +248,7 @@ func (s *icmpDriver) handleProbeLayers(parser *packets.FrameParser) (*common.Pro
 			if echo.Identifier != s.echoID {
 				return nil, &common.BadPacketError{Err: fmt.Errorf("mismatched echo ID")}
 			}
-			rtt, err := s.getRTTFromRelSeq(uint8(echo.SeqNumber))
+			rtt, err := s.getRTTFromRelSeq(echo.SeqNumber)
 			if err != nil {
 				return nil, &common.BadPacketError{Err: fmt.Errorf("icmpDriver failed to get RTT: %w", err)}
 			}
@@ -262,7 +268,7 @@ func (s *icmpDriver) handleProbeLayers(parser *packets.FrameParser) (*common.Pro
 			if id != s.echoID {
 				return nil, &common.BadPacketError{Err: fmt.Errorf("mismatched echo ID")}
 			}
-			rtt, err := s.getRTTFromRelSeq(uint8(seq))
+			rtt, err := s.getRTTFromRelSeq(seq)
 			if err != nil {
 				return nil, &common.BadPacketError{Err: fmt.Errorf("icmpDriver failed to get RTT: %w", err)}
 			}
